@@ -14,6 +14,7 @@ structure ApiSt where
   consumers : List (String × ConsSt) := []
   deliveries : List (String × (Nat × Nat)) := []
   ioDead : Bool := false
+  ioEnd : IoEnd := .ok
 
 def showAField : AField → String
   | .nat n => s!"n:{n}"
@@ -158,6 +159,12 @@ def apiStep (s : Option ApiSt) (toks : List String) : Option ApiSt × List Strin
     match fm.toNat? with
     | some fm => (some { frameMax := fm, chans := [(0, { id := 0, limit := 0 })] }, ["ok"])
     | none => (s, ["bad-op"])
+  | "init" :: fm :: "ioend" :: rest, _ =>
+    match fm.toNat? with
+    | some fm =>
+      let e : IoEnd := if rest = ["panic"] then .panicked else .failed (.other (" ".intercalate rest))
+      (some { frameMax := fm, chans := [(0, { id := 0, limit := 0 })], ioEnd := e }, ["ok"])
+    | none => (s, ["bad-op"])
   | "open" :: want :: pre, some st =>
     let wantLine := if want = "none" then "allocreq none" else "allocreq some " ++ (want.drop 5).toString
     if st.ioDead then
@@ -250,7 +257,7 @@ def apiStep (s : Option ApiSt) (toks : List String) : Option ApiSt × List Strin
           (some { st with chans := setC 0 c0' st.chans }, ["ret err " ++ showApiErr (e.getD .eventLoopDropped)])
       | none => (s, ["bad-op"])
     else if kind = "conn" && ch = "close" then
-      let (st1, lines) := withChan st 0 closeConnection
+      let (st1, lines) := withChan st 0 (fun c => closeImpl c st.ioEnd)
       (some st1, lines)
     else (s, ["bad-op"])
   | ["mkdelivery", d, ch, dtag], some st =>
